@@ -45,6 +45,8 @@ def run_property(pid, tier, seed, only, spec):
                         "checks named in DESIGN.md appendix A)"]
     prog = Program()
     K.load_all(prog)
+    from contracts import maps as _M
+    _M.load(prog)
     cat = catalog(prog, tier)
     extra = spec.get('extra_builders', {})
     timeout = 15000 if tier == 'quick' else 90000
